@@ -15,7 +15,7 @@ from ..gen import c03_common as K
 
 PID = "C03"
 COQ_HEADER = ("From Coq Require Import List NArith ZArith Bool.\nImport ListNotations.\n"
-              "From SK Require Import lib.Tok lib.LGraph model.C03_Model.\n")
+              "From SK Require Import lib.Tok lib.LGraph model.C03_Model model.C03_Order.\n")
 SHARD = 24
 IMPL_TIMEOUT = 1500
 COQ_TIMEOUT = 1500
@@ -25,7 +25,7 @@ RULE = ("(template, substrate, direction, strategy, hydrogen mode) with template
         "hand-made rule, or a synthetic ITS graph planted on a random host; non-trivial = at least one glued result and a "
         "template with >= 2 changed bonds; distinct = distinct (template, substrate, configuration)")
 EXHAUSTIVE = {"quick": False, "thorough": False}
-EXPLANATION = ("46 theorems (coq/props/C03.v) about the Gallina model of SynReactor._glue_graph/_node_glue, _invert_template, _explicit_h, "
+EXPLANATION = ("60 theorems (coq/props/C03.v) about the Gallina model of SynReactor._glue_graph/_node_glue, _invert_template, _explicit_h, "
                "h_to_explicit and SynRule.__init__ (implicit-template mode; default mode for templates without explicit H atoms): for every host, rule and valid match the reactant side of the glued ITS "
                "(on its_decompose, what _to_smarts serialises) is the substrate; element counts incl. hydrogen and total charge agree on both "
                "sides for a balanced rule (and differ by exactly the rule's imbalance otherwise); changed bonds = image of the rule's bonds with "
@@ -38,13 +38,15 @@ DESIGN_REF = "DESIGN.md section 5 C03; notes/C03.md"
 TECHNIQUE = "Coq proof over an executable Gallina model + per-run correspondence (vm_compute digest vs implementation) + independent Python oracle"
 TRUSTED_BASE = [
     "Coq 8.16.1 kernel + vm_compute (no native_compute)",
-    "hand-written model coq/model/C03_Model.v tied to synkit/Synthesis/Reactor/syn_reactor.py, synkit/Rule/syn_rule.py, "
+    "hand-written model coq/model/C03_Model.v + coq/model/C03_Order.v tied to synkit/Synthesis/Reactor/syn_reactor.py, synkit/Rule/syn_rule.py, "
     "synkit/Graph/Hyrogen/_misc.py (standardize_hydrogen, h_to_implicit, h_to_explicit), its_decompose / ITSConstruction by the per-run correspondence",
     "statement vocabulary coq/proof/C03_Spec.v (bondG, dH, dQ, sumZ, balancedb, count_el, total_hc, total_charge, elem_count, mol_of_host): plain definitions, to be read with the theorems",
     "harness encoders harness/gen/c03_common.py (nx graphs -> Gallina literals; attributes -> tok)",
     "oracle inputs: RDKit SMILES parsing of substrate / template, networkx VF2 enumeration (the mappings handed to the model are the implementation's; "
     "each is re-validated by match_okb / match_rcb inside run_c03)",
     "networkx Graph semantics (attribute dicts per unordered pair), CPython round() = round-half-to-even",
+    "oracle input: the visiting order of each hydrogen-transfer group inside _explicit_h (iteration order of a Python set), recorded around "
+    "nx.connected_components by harness/gen/c03_common.py; the model uses a recorded order only for a component with exactly the same atoms",
 ]
 ASSUMPTIONS = ["templates have typesGH 5-tuples on every node, no wildcard '*' atoms (partial-matching engine is outside C03)",
                "bond orders are multiples of 0.5", "node ids are non-negative ints",
@@ -65,10 +67,11 @@ TESTED_NOT_PROVED = ["serialisation half: _to_smarts / graph_to_smi (RDKit) — 
                      "explicit H (C03_synrule_default_noH)",
                      "re-matching of the explicit-hydrogen pattern (_get_explicit_map -> VF2): every re-match is checked by match_okb / match_rcb in the "
                      "correspondence, not proved valid or complete (premise of C03_explicit_path)",
-                     "_explicit_h: which of several donors / recipients INSIDE one h_pairs group a new H atom joins (first-fit in sorted order) is compared "
-                     "(the wiring multiset is part of the observable) but not characterised by a theorem; proved: every new H joins a donor and a recipient "
-                     "of the same group (C03_explicitH_wiring), usage counts (C03_explicitH_usage / _usage_exact), shape (C03_explicitH_shape), crash "
-                     "condition (C03_explicitH_crash_iff)",
+                     "_explicit_h: the ORDER in which the atoms of one h_pairs group are visited is a Python set's (CPython hash-table order, not the "
+                     "sorted order); it is recorded from the implementation and handed to the model as an oracle input (model/C03_Order.v, ord_of: "
+                     "a recorded order is used only for a component with exactly its atoms). Everything else about the pairing is proved for EVERY order: "
+                     "first fit = zip of donor and recipient slots (C03_first_fit_zip, C03_explicitH_ord_closed_form), wiring inside one group, usage "
+                     "counts, shape, crash condition, conservation (C03_explicitH_ord_*)",
                      "matching itself (SubgraphSearchEngine, orbit de-duplication): C06 / C05"]
 
 HAND = [
@@ -198,6 +201,61 @@ def _syn_transfer_case(rng):
     tpl = {"nodes": [[n_, {"element": g_[0], "charge": g_[3], "atom_map": n_, "typesGH": [g_, h_]}] for n_, g_, h_ in tn],
            "edges": [[u, v, {"order": [l_, r_], "standard_order": s_}] for u, v, l_, r_, s_ in te]}
     return dict(kind="synthetic-transfer", tpl={"graph": tpl}, sub={"graph": host}, invert=inv, strategy=rng.choice(["all", "comp", "bt"]), mode="E")
+
+
+def _syn_group_case(rng):
+    """graph level (round 5): ONE hydrogen-transfer group with two or three donors AND two or three recipients (a chain
+    d0 -> r0 <- d1 -> r1 ..., some pairs with two hydrogens), written with explicit H atoms, planted on a host whose node ids
+    are scattered over 0..70 — the visiting order of the group inside _explicit_h is then the hash-table order of a Python
+    set, not the sorted order, and the first-fit pairing depends on it"""
+    els = ["C", "N", "O", "S", "P", "B", "F", "I"]
+    nd, nr = rng.randint(2, 3), rng.randint(2, 3)
+    use = rng.sample(els, nd + nr)
+    spect = [e for e in els if e not in use]
+    ids = rng.sample(range(0, 71), nd + nr + rng.randint(0, 2))
+    tids = rng.sample(range(1, 40), nd + nr)
+    don, recp = list(range(nd)), list(range(nd, nd + nr))
+    pairs = []
+    for i in range(max(nd, nr)):
+        pairs.append((don[i % nd], recp[i % nr]))
+        pairs.append((don[(i + 1) % nd], recp[i % nr]))
+    pairs = list(dict.fromkeys(pairs))
+    rng.shuffle(pairs)
+    pairs = pairs[:rng.randint(max(nd, nr) + 1, len(pairs))] if len(pairs) > max(nd, nr) + 1 else pairs
+    give = {}
+    tn, te = [], []
+    nh = max(tids) + 1
+    for a in range(nd + nr):
+        tn.append([tids[a], [use[a], False, 0, 0, []], [use[a], False, 0, 0, []]])
+    for d, r in pairs:
+        for _ in range(rng.choice([1, 1, 1, 2])):
+            tn.append([nh, ["H", False, 0, 0, []], ["H", False, 0, 0, []]])
+            te.append([tids[d], nh, 1, 0, 1])
+            te.append([tids[r], nh, 0, 1, -1])
+            give[d] = give.get(d, 0) + 1
+            nh += 1
+    hnodes = {}
+    for a in range(nd + nr):
+        hnodes[ids[a]] = {"element": use[a], "aromatic": False, "hcount": give.get(a, 0) + rng.randint(0, 1) if a < nd else rng.randint(0, 2),
+                          "charge": 0, "neighbors": [], "atom_map": 0}
+    hedges = {}
+    for x in ids[nd + nr:]:
+        hnodes[x] = {"element": rng.choice(spect) if spect else "C", "aromatic": False, "hcount": rng.randint(0, 3), "charge": 0, "neighbors": [], "atom_map": 0}
+        hedges[(x, rng.choice(ids[:nd + nr]))] = 1
+    if rng.random() < 0.4:
+        hedges[(ids[0], ids[nd])] = rng.choice([1, 2])          # a donor bonded to a recipient: the bond is no part of the template
+    order = list(hnodes)
+    rng.shuffle(order)
+    host = {"nodes": [[i, hnodes[i]] for i in order], "edges": [[u, v, {"order": o}] for (u, v), o in hedges.items()]}
+    inv = rng.random() < 0.3
+    if inv:
+        tn = [[n_, h_, g_] for n_, g_, h_ in tn]
+        te = [[u, v, r_, l_, -s_] for u, v, l_, r_, s_ in te]
+    rng.shuffle(tn)
+    rng.shuffle(te)
+    tpl = {"nodes": [[n_, {"element": g_[0], "charge": g_[3], "atom_map": n_, "typesGH": [g_, h_]}] for n_, g_, h_ in tn],
+           "edges": [[u, v, {"order": [l_, r_], "standard_order": s_}] for u, v, l_, r_, s_ in te]}
+    return dict(kind="synthetic-group", tpl={"graph": tpl}, sub={"graph": host}, invert=inv, strategy=rng.choice(["all", "comp", "bt"]), mode="E")
 
 
 # ------------------------------------------------------------------ API surface, histories, degenerate values (round 3)
@@ -461,8 +519,15 @@ def prepare(case):
         calls = []
         for m, remaps, hx, out in rec.glue_calls[:MAXM]:
             calls.append([K.map_pairs(m), None if remaps is None else [K.map_pairs(x) for x in remaps[:MAXR]]])
+        def valid_of(ci):
+            m, remaps, hx, out = rec.glue_calls[ci]
+            base, ms = (rec.host, [m]) if remaps is None else (hx, remaps)
+            return [_valid_additive(base, rec.rule.rc.raw, mm) for mm in ms]
+        ords = K.order_tables(rec, MAXM, MAXR, valid_of) if case.get("mode", "E") == "E" else []
         case["pre"] = {"host": _host_json(rec.host), "tpl": _its_json(rec.tpl), "calls": calls,
                        "nmaps": len(rec.mappings), "nraw": len(rec.raw)}
+        if any(t for row in ords for t in row):
+            case["pre"]["ords"] = ords      # visiting orders of hydrogen-transfer groups that are not the sorted order
     except Exception as e:
         case["pre"] = {"outside": "encoding: " + str(e)[:120]}
     return case
@@ -556,7 +621,8 @@ def _impl_one(case):
                     gl.append([])
                     continue
                 g = out[j]
-                o = [K.its_obs(g), _branches(base, rule.rc.raw, mm), [K.explicit_h_obs(g, after[k + j]), K.explicit_h_wiring(g, after[k + j])] if show_ex else []]
+                # last 1: the closed form of the first-fit pairing (zip of donor and recipient slots) agrees with the pairing on every group (model: zip_okb)
+                o = [K.its_obs(g), _branches(base, rule.rc.raw, mm), [K.explicit_h_obs(g, after[k + j]), K.explicit_h_wiring(g, after[k + j]), 1] if show_ex else []]
                 gl.append([o])
                 j += 1
             row.append(gl)
@@ -603,7 +669,8 @@ def coq_case(case):
         cr = "None" if remaps is None else "(Some %s)" % K.cl([K.cl(["(%s, %s)" % (K.cN(p), K.cN(h)) for p, h in x]) for x in remaps])
         calls.append("(%s, %s)" % (cm, cr))
     mode = case.get("mode", "E")
-    t = "%s %s %s %s %s %s %s" % ("run_c03r" if case.get("tpl_form") == "synrule" else "run_c03w", K.cb(case.get("invert", False)), K.cb(mode == "I"), K.cb(mode == "E"), host, tpl, K.cl(calls))
+    tbls = K.cl([K.cl([K.cl([K.cl([K.cN(x) for x in o]) for o in tbl]) for tbl in row]) for row in pre.get("ords", [])])
+    t = "%s %s %s %s %s %s %s %s" % ("run_c03ro" if case.get("tpl_form") == "synrule" else "run_c03o", K.cb(case.get("invert", False)), K.cb(mode == "I"), K.cb(mode == "E"), host, tpl, K.cl(calls), tbls)
     if case.get("reads"):
         return "L [%s; tbool true]" % t
     return t
@@ -952,10 +1019,12 @@ def gen_cases(tier, rng):
         cases.append(_syn_case(rng))
     for _ in range(120 if tier == "quick" else 1500):
         cases.append(_syn_transfer_case(rng))
+    for _ in range(60 if tier == "quick" else 600):
+        cases.append(_syn_group_case(rng))
     return prepare_all(cases)
 
 
-LEVEL_TEXT = ("Machine-checked proof (Coq, 46 theorems, all closed under the global context) over an executable model of gluing a rule onto a "
+LEVEL_TEXT = ("Machine-checked proof (Coq, 60 theorems, all closed under the global context) over an executable model of gluing a rule onto a "
               "substrate along a match (SynReactor._glue_graph/_node_glue), _invert_template, _explicit_h, h_to_explicit and SynRule.__init__ "
               "(implicit-template mode; default mode for templates without explicit hydrogen atoms): for EVERY substrate graph, rule graph and valid match (boolean hypotheses wf_hostb, wf_rcb, match_rcb) "
               "(a) the reactant molecule graph of the glued ITS is the substrate (same atoms in the same order, same bonds), (b) every element "
@@ -977,7 +1046,11 @@ LEVEL_TEXT = ("Machine-checked proof (Coq, 46 theorems, all closed under the glo
               "template reused) are in the quick tier; clause (a) is judged against an independent RDKit reading of the substrate; default-mode "
               "rule preparation is characterised exactly (C03_synrule_default_exact, pair ids in both directions), and clauses (b) and (c) are proved END TO "
               "END for the default mode from conditions on the template alone (C03_default_end_to_end_direct/_expanded, "
-              "C03_default_changed_bonds, C03_default_migrations_in_template_groups); SynRule objects as templates are modelled (C03_wrap_rule).")
+              "C03_default_changed_bonds, C03_default_migrations_in_template_groups); SynRule objects as templates are modelled (C03_wrap_rule). "
+              "Round 5: the visiting order of a hydrogen-transfer group inside _explicit_h (a Python set: hash-table order) is a parameter of the model "
+              "(model/C03_Order.v; the sorted order assumed before differs from the code as soon as a group has two donors and two recipients with ids >= 8: "
+              "population synthetic-group); all _explicit_h theorems are proved for every order, and the partner choice inside a group is characterised in "
+              "closed form (first fit = zip of slots, C03_first_fit_zip).")
 LEVEL_NOTE = ("Trusted: Coq kernel + vm_compute; the hand-written model, the statement vocabulary (proof/C03_Spec.v) and the harness encoders; RDKit "
               "parsing and VF2 matching are oracle inputs (every mapping used is re-validated by the model's match_okb / match_rcb and the theorems' "
               "hypotheses are recomputed on every case). Modelled and compared but NOT proved: default-mode rule preparation (_strip_explicit_h), "
